@@ -1,0 +1,15 @@
+//go:build verif
+
+package xixi_kv
+
+// VerifPoint, when set by a verification harness, is called at named points
+// of the engine: between file-system operations of Merge and of merge
+// adoption (crash points) and at the boundaries of critical sections
+// (schedule gates; the callback may block).
+var VerifPoint func(name string, arg uint32)
+
+func verifPoint(name string, arg uint32) {
+	if f := VerifPoint; f != nil {
+		f(name, arg)
+	}
+}
